@@ -7,6 +7,7 @@ import (
 	"go/token"
 	"go/types"
 	"path/filepath"
+	"regexp"
 	"strings"
 )
 
@@ -170,6 +171,21 @@ func checkC12(c *Check) {
 			}
 		})
 	}
+	// (7) element-count sanity: the interpreter rejects a TL2 collection exactly when the generated reader does —
+	// announced count (bits: count/8) STRICTLY greater than the remaining body bytes (qt_brackets/qt_dict: `elementCount > len(currentR)`)
+	ecGuard := regexp.MustCompile(`if ([^\n]*)\n\s+return buf, basictl\.TL2ElementCountError\(`)
+	ecStrict := regexp.MustCompile(`\(len\(\$\) < (\$|\(\$ / #8\))\)`)
+	for _, name := range sortedKeys(r.funcs) {
+		fi := r.funcs[name]
+		if !strings.HasPrefix(name, P) || fi.Decl.Body == nil || fi.Obj.Name() != "ReadTL2" {
+			continue
+		}
+		t := irText(buildFuncIR(fi, r.co.allFuncs(), r.co.Fset))
+		for _, m := range ecGuard.FindAllStringSubmatch(t, -1) {
+			c.Ob("interp/tl2-element-count-guard-strict", strings.TrimPrefix(name, P), ecStrict.MatchString(m[1]) && !strings.Contains(m[1], "<="), r.pos(fi.Decl.Pos()), "TL2ElementCountError is returned under `"+m[1]+"`: strictly more elements than remaining bytes, as in the generated readers")
+		}
+	}
+	c.Floor("interp/tl2-element-count-guard-strict", 3)
 	c.Floor("interp/nat-arguments-rebuilt-per-element", 6)
 	_ = threaded
 	// the generator's struct template computes slots the same way: every `% 8` expression in it is `(e + 1) % 8`, used
